@@ -647,3 +647,163 @@ def c17(R, ctx):
             R.violation("correspondence:C17", "model and implementation differ on `%s`: impl=%r model=%r" % (reqs[k], impl[k][:200], model[k][:200]),
                         {"request": reqs[k], "implementation": impl[k], "model": model[k], "theorem": "correspondence Model/Attr.v <-> values.py/pretty"}, found_input=False)
             break
+
+
+# ----------------------------------------------------------------------------- C18
+
+
+@runner("C18")
+def c18(R, ctx):
+    highs = [0, 0xFFFFF000, 0x00001000, R.rng.randrange(1, 1 << 20) << 12]
+    if ctx["tier"] != "quick":
+        highs += [R.rng.randrange(1, 1 << 20) << 12 for _ in range(6)]
+    vals = [0]
+    for hi in highs:
+        for low in range(4096):
+            if low & 0x180:
+                vals.append(hi | low)
+    reqs = ["rc cur %d" % v for v in vals]
+    impl = common.run_impl("impl_worker", reqs)
+    model = common.run_model(reqs) if ctx["driver_ok"] else impl
+    spec = common.run_model(["rcspec %d" % v for v in vals]) if ctx["driver_ok"] else None
+    flagged = set()
+    for k, v in enumerate(vals):
+        text, _, rows = impl[k].partition("|")
+        problem = None
+        if spec is not None and text != spec[k]:
+            problem = "text form is %r, the TPM 2.0 format rules give %r" % (text, spec[k])
+        elif v != 0:
+            union = 0
+            for r in rows.split(","):
+                try:
+                    m = int(r.split(":")[1])
+                except (IndexError, ValueError):
+                    problem = "unparsable row %r" % r
+                    break
+                if union & m:
+                    problem = "bit rows overlap at %#x" % (union & m)
+                union |= m
+            if problem is None and union != 0xFFFFFFFF:
+                problem = "bit rows leave %#x uncovered" % (0xFFFFFFFF ^ union)
+        if problem:
+            flagged.add(k)
+            R.violation("c18:" + problem.split(" ")[0] + ":" + ("fmt1" if v & 0x80 else "fmt0"), "TPM_RC(%#x): %s" % (v, problem),
+                        {"value": v, "implementation": impl[k], "expected_text": spec[k] if spec else None,
+                         "how": "str(tpmstream.spec.structures.constants.TPM_RC(%d)) / .attributes()" % v})
+    bad = [k for k in range(len(reqs)) if impl[k] != model[k]]
+    R.coverage.update({"correspondence_cases": len(reqs), "correspondence_disagreements": len(bad),
+                       "correspondence_compares": "str(TPM_RC(v)) and every attributes() row (name, mask, details up to ':')",
+                       "evaluations": len(reqs), "distinct_nontrivial": len(set(vals)), "exhaustive": True,
+                       "rule": "all 4096 low-12-bit values with bit 7 or bit 8 set, plus zero, each with several settings of the reserved high bits",
+                       "samples": [{"request": reqs[i], "implementation": impl[i]} for i in (1, len(reqs) // 3)]})
+    for k in bad:
+        if k not in flagged:
+            R.violation("correspondence:C18", "model and implementation differ on `%s`: impl=%r model=%r" % (reqs[k], impl[k][:200], model[k][:200]),
+                        {"request": reqs[k], "implementation": impl[k], "model": model[k], "theorem": "correspondence Model/RC.v <-> tpm_rc.py"}, found_input=False)
+            break
+
+
+# ----------------------------------------------------------------------------- C16
+
+
+def int_samples(R, ctx, p, tier):
+    w = p["width"]
+    lim = 1 << (8 * w)
+    lo, hi = (-(lim // 2), lim // 2 - 1) if p["signed"] else (0, lim - 1)
+    if w == 1 or (w == 2 and tier != "quick"):
+        return list(range(lo, hi + 1))
+    pts = {lo, lo + 1, hi, hi - 1, 0, 1, -1 if lo < 0 else 2}
+
+    def around(x):
+        for d in (-2, -1, 0, 1, 2):
+            pts.add(x + d)
+
+    def members(ms):
+        for m in ms:
+            if m["k"] == "const":
+                around(m["v"])
+            else:
+                around(m["lo"])
+                around(m["hi"] - 1)
+                around(m["hi"])
+    for it in p["valid"]:
+        k = it["k"]
+        if k in ("vrange", "vnamed"):
+            around(it["lo"])
+            around(it["hi"] - 1)
+            around(it["hi"])
+            if it["hi"] - it["lo"] > 4:
+                pts.add(R.rng.randrange(it["lo"], it["hi"]))
+        elif k in ("vmember", "vint"):
+            around(it["v"])
+        else:
+            members(it["ms"])
+    if p["kind"]["k"] == "enum":
+        members(p["kind"]["ms"])
+    if p["kind"]["k"] == "bits":
+        for _, m in p["kind"]["masks"]:
+            around(m)
+    for _ in range(40 if tier == "quick" else 600):
+        pts.add(R.rng.randrange(lo, hi + 1))
+    if w == 2:
+        for _ in range(600):
+            pts.add(R.rng.randrange(lo, hi + 1))
+    return sorted(x for x in pts if lo <= x <= hi)
+
+
+@runner("C16")
+def c16(R, ctx):
+    cur = ctx["tables"]
+    reqs, meta = [], []
+    for n in sorted(cur["prims"]):
+        p = cur["prims"][n]
+        if p["kind"]["k"] == "rc":
+            continue  # text form of TPM_RC is C18's
+        for v in int_samples(R, ctx, p, ctx["tier"]):
+            reqs.append("int cur %s %d" % (n, v))
+            meta.append((n, v))
+    impl = common.run_impl("impl_worker", reqs)
+    model = common.run_model(reqs) if ctx["driver_ok"] else impl
+    spec = common.run_model([r.replace("int cur", "int pin") for r in reqs]) if ctx["driver_ok"] else None
+    flagged = set()
+    for k, (n, v) in enumerate(meta):
+        if spec is None:
+            break
+        if impl[k] != spec[k]:
+            iv, ir, ib, it = (impl[k].split("|") + ["", "", "", ""])[:4]
+            sv, sr, sb, st_ = (spec[k].split("|") + ["", "", "", ""])[:4]
+            what = "validity" if iv != sv else "byte form" if ib != sb else "text form" if it != st_ else "representability"
+            flagged.add(k)
+            R.violation("c16:%s:%s" % (what.split(" ")[0], n), "%s(%d): %s is %r, the pinned declaration gives %r"
+                        % (n, v, what, {"validity": iv, "byte form": ib, "text form": it}.get(what, ir), {"validity": sv, "byte form": sb, "text form": st_}.get(what, sr)),
+                        {"type": n, "value": v, "implementation": impl[k], "expected": spec[k], "how": "harness/impl_worker.py: int cur %s %d" % (n, v)})
+    # operators etc. (correspondence-only claims, decided on the implementation directly)
+    oreqs, ometa = [], []
+    names = sorted(n for n in cur["prims"])
+    for n in names:
+        p = cur["prims"][n]
+        if p["kind"]["k"] in ("bits", "rc"):
+            continue  # attribute words do not emulate int operators (bit accessors instead)
+        vals = int_samples(R, ctx, p, "quick")
+        pick = R.rng.sample(vals, min(len(vals), 25 if ctx["tier"] == "quick" else 120))
+        for v in pick:
+            w = R.rng.choice([0, 1, -1, 2, 3, 7, 255, -128, 65535, v, v + 1, R.rng.randrange(-1000, 1000)])
+            oreqs.append("intops %s %d %d" % (n, v, w))
+            ometa.append((n, v, w))
+    ores = common.run_impl("impl_worker", oreqs)
+    for (n, v, w), r in zip(ometa, ores):
+        if r != "OK":
+            R.violation("c16:ops:" + r.split(" ")[1] if " " in r else "c16:ops", "%s(%d) does not behave like the plain integer (other operand %d): %s" % (n, v, w, r),
+                        {"type": n, "value": v, "other": w, "result": r, "how": "harness/impl_worker.py: intops %s %d %d" % (n, v, w)})
+    bad = [k for k in range(len(reqs)) if impl[k] != model[k]]
+    R.coverage.update({"correspondence_cases": len(reqs), "correspondence_disagreements": len(bad),
+                       "correspondence_compares": "is_valid(), representable, to_bytes(), format()",
+                       "operator_checks": len(oreqs),
+                       "evaluations": len(reqs) + len(oreqs), "distinct_nontrivial": len(set(meta)),
+                       "rule": "all primitive types; every value of 8-bit types (16-bit: exhaustive in the thorough tier, else boundaries + 600 random); for wider types width limits, every declared member / interval end point +-2 and seeded random values; distinct = distinct (type, value)",
+                       "samples": [{"request": reqs[i], "implementation": impl[i]} for i in (0, len(reqs) // 2, len(reqs) - 1)]})
+    for k in bad:
+        if k not in flagged:
+            R.violation("correspondence:C16", "model and implementation differ on `%s`: impl=%r model=%r" % (reqs[k], impl[k][:200], model[k][:200]),
+                        {"request": reqs[k], "implementation": impl[k], "model": model[k], "theorem": "correspondence Model/Ints.v <-> base_type.py/values.py"}, found_input=False)
+            break
